@@ -117,6 +117,16 @@ static int check(int v, const vx_log *l, char *msg, size_t len)
 			}
 		}
 	}
+	if (kind == K_NARROW) {
+		// iterations are non-barrier items of a queue whose width is 2: at most 2 may be in flight
+		int open_n = 0;
+		for (uint32_t i = 0; i < l->n; i++) {
+			const vx_event *e = &l->ev[i];
+			if (e->id < 100 || e->id % 100 || e->id == BARRIER_ITEM) continue;
+			if (e->kind == EV_START && ++open_n > 2) FAILF(msg, len, "%d apply iterations in flight at event #%u on a concurrent queue narrowed to width 2", open_n, i);
+			if (e->kind == EV_END) open_n--;
+		}
+	}
 	if (kind == K_CONC_BARRIER) {
 		int bs = ev_first(l, EV_START, BARRIER_ITEM), be = ev_first(l, EV_END, BARRIER_ITEM);
 		if (bs < 0 || be < 0 || ev_count(l, EV_START, BARRIER_ITEM) != 1) FAILF(msg, len, "the racing barrier item did not run exactly once");
